@@ -22,6 +22,13 @@ impl super::Interest for Interest {
     }
 }
 
+/// The token comes back with the readiness event and is used to find the waiting
+/// coroutine, so it must round-trip unchanged: only fold it where `usize` cannot hold it.
+#[allow(clippy::cast_possible_truncation)]
+fn mio_token(token: u64) -> Token {
+    Token(usize::try_from(token).unwrap_or(((token >> 32) as u32 ^ token as u32) as usize))
+}
+
 impl super::Event for Event {
     fn get_token(&self) -> u64 {
         self.token().0 as u64
@@ -91,11 +98,7 @@ impl super::Selector<Interest, Event, Events> for Poller {
     fn do_register(&self, fd: c_int, token: u64, interests: Interest) -> std::io::Result<()> {
         self.registry().register(
             &mut SourceFd(&fd),
-            Token(
-                ((token >> 32) as u32 ^ token as u32)
-                    .try_into()
-                    .expect("token overflow"),
-            ),
+            mio_token(token),
             interests,
         )
     }
@@ -104,11 +107,7 @@ impl super::Selector<Interest, Event, Events> for Poller {
     fn do_reregister(&self, fd: c_int, token: u64, interests: Interest) -> std::io::Result<()> {
         self.registry().reregister(
             &mut SourceFd(&fd),
-            Token(
-                ((token >> 32) as u32 ^ token as u32)
-                    .try_into()
-                    .expect("token overflow"),
-            ),
+            mio_token(token),
             interests,
         )
     }
